@@ -864,7 +864,10 @@ def check_argument_walk(ctx, rep, rule):
     sense = _none_test_name(w.test, _names(w.test).pop() if len(_names(w.test)) == 1 else "")
     ret = [st for st in ast.walk(w) if isinstance(st, ast.If) and any(isinstance(s, ast.Return) for s in st.body)]
     two = ret and isinstance(ret[0].test, ast.BoolOp) and isinstance(ret[0].test.op, ast.Or) and "alias_index" in ast.unparse(ret[0].test) and any(isinstance(v, ast.Call) and isinstance(v.args[0], ast.Name) for v in ret[0].test.values)
-    if sense is False:
+    kinds = {ast.unparse(c.args[1]) for c in ast.walk(ret[0].test) if isinstance(c, ast.Call) and isinstance(c.func, ast.Name) and c.func.id == "isinstance" and len(c.args) == 2} if ret else set()
+    if kinds - {"Parameter"}:
+        rep.violation(rule, cons, f"`{ast.unparse(ret[0].test)[:90]}` treats {sorted(kinds - {'Parameter'})} as `not known yet`: the value of a let constant IS known, so `first r[0] r[k]` with k out of range (and the second parameter unused) is accepted and the bad reference dropped", f"{f.path}:{ret[0].lineno}", witness="let k 2; register r[2]; macro first a b { Px a }; first r[0] r[k]")
+    elif sense is False:
         rep.violation(rule, cons, f"`while {ast.unparse(w.test)}`: the chain is never walked, so an argument that depends on a parameter of the enclosing macro is resolved at once (JaqalError: unbound)", f"{f.path}:{w.lineno}")
     elif not two:
         rep.violation(rule, cons, f"`{ast.unparse(ret[0].test)[:80] if ret else 'no early return'}`: only one of (source is a parameter, index is a parameter) is recognised as `not known yet`", f"{f.path}:{(ret[0] if ret else w).lineno}")
@@ -1175,3 +1178,92 @@ def float_parameter_range(ctx, rep, rule):
 EXTRA["C16"].append((egg_search_total, "C16.26"))
 EXTRA["C16"].append((float_parameter_range, "C16.27"))
 EXTRA["C18"].append((float_parameter_range, "C18.14"))
+
+
+def lexer_token_positions(ctx, rep, rule):
+    """Inside a token action sly has already advanced self.index past the
+    match: the position of the token is token.index."""
+    ix = ctx.ix
+    L = "jaqalpaq.parser.slyparse.JaqalLexer"
+    if L not in ix.classes:
+        raise AnalysisError("anchor vanished: JaqalLexer")
+    rep.rule(rule, "a lexer token action reports the position of its token from token.index (self.index already points past the match there); only the error hook, called before anything is consumed, may use self.index", floor=2)
+    ci = ix.classes[L]
+    n = 0
+
+    def reads_self_index(m, depth=0):
+        selfn = m.params[0]
+        for x in ast.walk(m.node):
+            if isinstance(x, ast.Attribute) and x.attr == "index" and isinstance(x.value, ast.Name) and x.value.id == selfn:
+                return x
+            if depth < 1 and isinstance(x, ast.Call) and isinstance(x.func, ast.Attribute) and isinstance(x.func.value, ast.Name) and x.func.value.id == selfn:
+                h = ci.methods.get(x.func.attr)
+                if h is not None and h is not m and reads_self_index(h, depth + 1) is not None:
+                    return x
+        return None
+    for name, m in ci.methods.items():
+        if not name.isupper() or len(m.params) < 2:
+            continue
+        if not any(isinstance(r, ast.Raise) for r in ast.walk(m.node)):
+            continue
+        n += 1
+        cons = construct_of(m, "position")
+        bad = reads_self_index(m)
+        if bad is not None:
+            rep.violation(rule, cons, f"`{ast.unparse(bad)[:50]}` in the action of token {name}: the column reported for `literal too large` is the one just past the literal, not that of its first character", f"{m.path}:{bad.lineno}")
+        else:
+            rep.ok(rule, cons, "position taken from the token", m.loc())
+    if n < 2:
+        raise AnalysisError(f"{rule}: only {n} raising token actions in JaqalLexer (INT and NUMBER on the pinned tree)")
+
+
+def visited_field_used_raw(ctx, rep, rule, modules):
+    """If a handler visits a field of its node, results are built from the
+    visited value, not from the field again."""
+    ix = ctx.ix
+    VIS = "jaqalpaq.core.algorithm.visitor.Visitor"
+    rep.rule(rule, "in a handler that visits a field of its node (`new = self.visit(node.f)`), the result is built from the visited value: the raw `node.f` does not appear again as an argument of a constructor or builder call", floor=3)
+    n = 0
+    for k in ix.subclasses(VIS):
+        ci = ix.classes[k]
+        if ci.module not in modules:
+            continue
+        for name, m in ci.methods.items():
+            if not name.startswith("visit_") or len(m.params) < 2:
+                continue
+            selfn, p = m.params[0], m.params[1]
+            visited = {}
+            for c in ast.walk(m.node):
+                if isinstance(c, ast.Call) and isinstance(c.func, ast.Attribute) and isinstance(c.func.value, ast.Name) and c.func.value.id == selfn:
+                    for a in c.args:
+                        if isinstance(a, ast.Attribute) and isinstance(a.value, ast.Name) and a.value.id == p:
+                            visited.setdefault(a.attr, c)
+            if not visited:
+                continue
+            n += 1
+            cons = construct_of(m, "visited-fields")
+            bad = None
+            in_tests = {id(x) for st in ast.walk(m.node) if isinstance(st, (ast.If, ast.While, ast.IfExp, ast.Assert)) for x in ast.walk(st.test)}
+            for c in ast.walk(m.node):
+                if not isinstance(c, ast.Call) or id(c) in in_tests:
+                    continue  # (a test may well compare with what the node was before)
+                f_ = c.func
+                if isinstance(f_, ast.Attribute) and isinstance(f_.value, ast.Name) and f_.value.id == selfn:
+                    continue
+                if isinstance(f_, ast.Name) and f_.id in ("isinstance", "len", "getattr", "hasattr", "type", "id", "repr", "str"):
+                    continue
+                for a in list(c.args) + [kw.value for kw in c.keywords]:
+                    if isinstance(a, ast.Attribute) and isinstance(a.value, ast.Name) and a.value.id == p and a.attr in visited:
+                        bad = (c, a)
+            if bad is not None:
+                c, a = bad
+                rep.violation(rule, cons, f"`{ast.unparse(c)[:70]}` is built from the raw `{ast.unparse(a)}` although the handler has visited that field (`{ast.unparse(visited[a.attr])[:40]}`): on this path what the pass did below the field is thrown away (e.g. a single-qubit alias keeps resolving through the un-substituted chain)", f"{m.path}:{c.lineno}")
+            else:
+                rep.ok(rule, cons, f"visited {sorted(visited)}; none re-used raw", m.loc())
+    if n < 3:
+        raise AnalysisError(f"{rule}: only {n} handlers visit a field in {modules}")
+
+
+EXTRA["C16"].append((lexer_token_positions, "C16.28"))
+EXTRA["C05"].append((visited_field_used_raw, "C05.17", ["jaqalpaq.core.algorithm.fill_in_let"]))
+EXTRA["C10"].append((visited_field_used_raw, "C10.18", ["jaqalpaq.core.algorithm.fill_in_let", "jaqalpaq.core.algorithm.fill_in_map", "jaqalpaq.core.algorithm.expand_macros", "jaqalpaq.core.algorithm.expand_subcircuits", "jaqalpaq.core.algorithm.unit_timing"]))
